@@ -299,7 +299,61 @@ func c07Case(rt *rapid.T, rec *vt.Rec) {
 		if scheduled {
 			sc := newSched()
 			s.ys.sc = sc
-			trace = sc.run(rt, names, fns)
+			if k >= 3 && rapid.IntRange(0, 2).Draw(rt, "pipelined") == 0 {
+				// Staggered arrivals instead of a drawn schedule: whenever the withdrawal that is furthest along stands
+				// in its settlement, ONE newcomer is let in (as far as its own settlement or until it has to wait),
+				// then the leader goes on; the next newcomer only arrives when the next leader stands in its
+				// settlement. (Two racing requests behind one that is being settled, then a late third - the order in
+				// which a per-wallet lock, queue or in-flight table has to get its hand-overs right.)
+				releases := map[int]int{}
+				newcomerOf := map[int]int{} // leader task -> newcomer it let in (-1 = none left)
+				c.classes["race-pipelined"] = true
+				trace = sc.runWith(func(ps []*parkedTask) int {
+					pickTask := func(t int) int {
+						for i, p := range ps {
+							if p.task == t {
+								releases[t]++
+								return i
+							}
+						}
+						return -1
+					}
+					for _, p := range ps {
+						if p.label != "Settle" {
+							continue
+						}
+						nc, ok := newcomerOf[p.task]
+						if !ok {
+							nc = -1
+							for _, q := range ps {
+								if releases[q.task] == 0 {
+									nc = q.task
+									break
+								}
+							}
+							newcomerOf[p.task] = nc
+						}
+						if nc >= 0 {
+							// still on its way in (parked before its own settlement)?
+							for _, q := range ps {
+								if q.task == nc && q.label != "Settle" {
+									return pickTask(nc)
+								}
+							}
+						}
+					}
+					// nobody to let in: the task that is furthest along goes on
+					best := ps[0].task
+					for _, q := range ps {
+						if releases[q.task] > releases[best] {
+							best = q.task
+						}
+					}
+					return pickTask(best)
+				}, names, fns)
+			} else {
+				trace = sc.run(rt, names, fns)
+			}
 			s.ys.sc = nil
 		} else {
 			var wg sync.WaitGroup
@@ -370,6 +424,11 @@ func c07Case(rt *rapid.T, rec *vt.Rec) {
 			owed := new(big.Int).Set(t0[wl.addr])
 			if wl.addr == w.addr && withAccrual {
 				owed.Add(owed, accrual)
+			}
+			// what was settled (before fees) never exceeds what the wallet was owed: a second payment of the same
+			// earnings is not made good by driving the stored credit below zero
+			if owed.Sign() >= 0 && paid[wl.addr].Cmp(owed) > 0 {
+				c.fail("wallet %s was owed %s in total, the racing withdrawals settled %s (before fees) and left it with %s: the same earnings were paid more than once\n  settle calls: %v", wl.name, owed, paid[wl.addr], left, fmtSettles(settles))
 			}
 			sum := new(big.Int).Add(paid[wl.addr], left)
 			if sum.Cmp(owed) != 0 {
